@@ -39,7 +39,7 @@ KINDS = ['rand_bytes', 'trunc_pickle', 'flip_pickle', 'pickle_nondict',
          'chained_cb',
          'handler_raises_disconnect', 'listen_raises', 'bad_pickle_class',
          'remote_ops_unknown', 'valid_emit', 'dict_raw', 'str_raw',
-         'json_bytes_emit', 'handler_emits_disconnect']
+         'json_bytes_emit', 'handler_emits_disconnect', 'json_after_nondict']
 
 
 REDIS_JUNK = ['rand_bytes', 'trunc_pickle', 'flip_pickle', 'pickle_nondict',
@@ -552,6 +552,15 @@ def _run(case, cfg, w):
         elif kind == 'valid_emit':
             bus.inject(pickle.dumps(valid_emit('V%d' % i, sent_sid)))
             sentinels.append('V%d' % i)
+        elif kind == 'json_after_nondict':
+            # a value that is not a message at all (the listener restarts
+            # its iterator), directly followed by a valid message from a
+            # publisher that writes JSON text
+            bus.inject(make_item(r % 2 and 'json_nondict' or 'pickle_nondict',
+                                 r, ctx))
+            bus.inject(json.dumps(valid_emit('N%d' % i, sent_sid)))
+            sentinels.append('N%d' % i)
+            nontrivial = True
         elif kind == 'json_bytes_emit':
             # a valid message from a publisher that writes JSON, handed over
             # by the back end as bytes (as Redis and most brokers do)
